@@ -4,6 +4,8 @@ write-half invariant `WInv`, and their preservation by every primitive of Model/
 -/
 import Compio.Model.SyncStream
 
+set_option linter.unusedSimpArgs false
+
 namespace Compio.SyncStream
 
 /-! ### `Buf` -/
@@ -479,5 +481,584 @@ theorem WInv.compact {w} (h : WInv w) : WInv { w with buf := w.buf.compactTo w.b
 theorem WInv.afterFlushTo {w} (h : WInv w) (snap : List Nat) (t : Nat) : WInv (w.afterFlushTo snap t).1 := by
   unfold WSide.afterFlushTo
   exact h.compact.flushTail snap t
+
+
+/-- the write buffer is empty and everything accepted has been sent -/
+def Flushed (w : WSide) : Prop := w.sent = w.accepted ∧ w.buf.data = [] ∧ w.buf.pos = 0
+
+theorem WSide.flushTail_flushed {w w' : WSide} {snap : List Nat} {t : Nat} {f : WFut} {res : Option (Res Nat)}
+    (hf : Flushed w) (h : w.flushTail snap t = (w', f, res)) : Flushed w' := by
+  have := WSide.flushTail_same w snap t
+  rw [h] at this
+  unfold Flushed at *
+  simp only at this
+  rw [this.1, this.2.1, this.2.2.1]; exact hf
+
+theorem WSide.afterFlushTo_flushed {w w' : WSide} {snap : List Nat} {t : Nat} {f : WFut} {res : Option (Res Nat)}
+    (hi : WInv w) (he : w.buf.avail = []) (h : w.afterFlushTo snap t = (w', f, res)) : Flushed w' := by
+  unfold WSide.afterFlushTo at h
+  refine WSide.flushTail_flushed ?_ h
+  refine ⟨?_, ?_, ?_⟩
+  · simp only; rw [hi.fifo, he]; simp
+  · simp only; rw [Buf.compactTo_data _ _ _ hi.pos_le]; exact he
+  · simp [Buf.compactTo_pos]
+
+/-- the state after the inner writer accepted `n` bytes of the offered slice -/
+def WSide.afterSend (w : WSide) (n : Nat) : WSide :=
+  { w.wake with sent := w.wake.sent ++ w.buf.avail.take n, buf := { w.wake.buf with lent := false },
+                log := w.wake.log ++ [.w w.buf.avail.length n] }
+
+theorem WSide.accepted_n_zero (w : WSide) (snap : List Nat) (total : Nat) :
+    w.accepted_n snap total 0 = (some (w.afterSend 0, .idle, some (.err .wz)), w.afterSend 0) := by
+  simp [WSide.accepted_n, WSide.afterSend]
+
+theorem WSide.accepted_n_done (w : WSide) (snap : List Nat) (total n : Nat) (hn : n ≠ 0)
+    (h : w.buf.pos + n = w.buf.data.length) (hc : w.buf.data.length ≤ w.buf.cap) :
+    w.accepted_n snap total n =
+      (some (({ w.afterSend n with buf := ({ (w.afterSend n).buf with pos := w.buf.pos + n } : Buf).reset }).afterFlushTo snap (total + n)),
+       w.afterSend n) := by
+  have h1 : ¬ w.buf.cap < w.buf.pos + n := by omega
+  have h2 : ¬ w.buf.data.length < w.buf.pos + n := by omega
+  have hadv : ({ w.wake.buf with lent := false } : Buf).advance n =
+      .ok { ({ w.wake.buf with lent := false } : Buf) with pos := w.buf.pos + n } true := by
+    rw [Buf.advance_ok (by simpa using h1) (by simpa using h2)]
+    simp; omega
+  simp only [WSide.accepted_n, hn, if_false, hadv, WSide.afterSend, if_true]
+
+theorem WSide.accepted_n_more (w : WSide) (snap : List Nat) (total n : Nat) (hn : n ≠ 0)
+    (h : w.buf.pos + n < w.buf.data.length) (hc : w.buf.data.length ≤ w.buf.cap) :
+    w.accepted_n snap total n =
+      (none, { w.afterSend n with buf := { (w.afterSend n).buf with pos := w.buf.pos + n } }) := by
+  have h1 : ¬ w.buf.cap < w.buf.pos + n := by omega
+  have h2 : ¬ w.buf.data.length < w.buf.pos + n := by omega
+  have hadv : ({ w.wake.buf with lent := false } : Buf).advance n =
+      .ok { ({ w.wake.buf with lent := false } : Buf) with pos := w.buf.pos + n } false := by
+    rw [Buf.advance_ok (by simpa using h1) (by simpa using h2)]
+    simp; omega
+  simp only [WSide.accepted_n, hn, if_false, hadv, WSide.afterSend]
+  simp
+
+theorem WInv.afterSend_adv {w} (h : WInv w) (n : Nat) (hn : w.buf.pos + n ≤ w.buf.data.length) :
+    WInv { w.afterSend n with buf := { (w.afterSend n).buf with pos := w.buf.pos + n } } := by
+  obtain ⟨fifo, pos_le, pend_le, len_le⟩ := h
+  constructor
+  · simp only [WSide.afterSend, WSide.wake_accepted, WSide.wake_sent, WSide.wake_buf, Buf.avail]
+    rw [fifo, Buf.avail, List.append_assoc]
+    congr 1
+    rw [← List.drop_drop, List.take_append_drop]
+  · simpa [WSide.afterSend] using hn
+  · simp [WSide.afterSend]; omega
+  · simpa [WSide.afterSend] using len_le
+
+theorem WInv.afterSend_zero {w} (h : WInv w) : WInv (w.afterSend 0) := by
+  obtain ⟨fifo, pos_le, pend_le, len_le⟩ := h
+  constructor
+  · simpa [WSide.afterSend, Buf.avail] using fifo
+  · simpa [WSide.afterSend] using pos_le
+  · simpa [WSide.afterSend] using pend_le
+  · simpa [WSide.afterSend] using len_le
+
+theorem WInv.afterSend_reset {w} (h : WInv w) (n : Nat) (hn : w.buf.pos + n = w.buf.data.length) :
+    WInv { w.afterSend n with buf := ({ (w.afterSend n).buf with pos := w.buf.pos + n } : Buf).reset } ∧
+    ({ w.afterSend n with buf := ({ (w.afterSend n).buf with pos := w.buf.pos + n } : Buf).reset } : WSide).buf.avail = [] := by
+  have hi := h.afterSend_adv n (by omega)
+  obtain ⟨fifo, pos_le, pend_le, len_le⟩ := hi
+  have hav : ({ (w.afterSend n).buf with pos := w.buf.pos + n } : Buf).avail = [] := by
+    simp [Buf.avail, WSide.afterSend]; omega
+  refine ⟨?_, by simp [Buf.reset, Buf.avail]⟩
+  constructor
+  · simp only [Buf.reset, Buf.avail, List.drop_nil, List.append_nil]
+    simp only [hav, List.append_nil] at fifo
+    exact fifo
+  · simp [Buf.reset]
+  · simp [Buf.reset]
+  · simp [Buf.reset]
+
+/-- postcondition of a poll of the flush future: if it ended `Ok`, or is now suspended in the inner
+`flush()`, the write buffer is empty and everything accepted has been sent -/
+def FlushPost (x : WSide × WFut × Option (Res Nat)) : Prop :=
+  ((∃ m, x.2.2 = some (.ok m)) ∨ (∃ t, x.2.1 = .flushing t)) → Flushed x.1
+
+/-- `writeLoop` keeps the invariant; a run that ends `Ok` has flushed everything -/
+theorem WInv.writeLoop (snap : List Nat) : ∀ (script : List WItem) {w : WSide} (total : Nat), WInv w →
+    WInv (w.writeLoop snap total script).1 ∧ FlushPost (w.writeLoop snap total script)
+  | [], w, total, h => by
+    unfold WSide.writeLoop
+    by_cases h0 : w.buf.avail.length = 0
+    · rw [h0, WSide.accepted_n_zero]
+      refine ⟨?_, by simp [FlushPost]⟩
+      have := (WInv.afterSend_zero (w := { w with script := [] }) (by cases h; constructor <;> simpa))
+      simpa using this
+    · have hlen : w.buf.pos + w.buf.avail.length = w.buf.data.length := by
+        have := h.pos_le; simp [Buf.avail]; omega
+      have hw : WInv { w with script := [] } := by cases h; constructor <;> simpa
+      rw [WSide.accepted_n_done _ _ _ _ h0 (by simpa using hlen) (by simpa using h.len_le)]
+      simp only
+      obtain ⟨hr, he⟩ := hw.afterSend_reset w.buf.avail.length (by simpa using hlen)
+      refine ⟨hr.afterFlushTo _ _, ?_⟩
+      intro _
+      exact WSide.afterFlushTo_flushed hr he rfl
+  | .p :: rest, w, total, h => by
+    unfold WSide.writeLoop
+    refine ⟨?_, by simp [FlushPost]⟩
+    cases h; constructor <;> simpa [Buf.avail]
+  | .e :: rest, w, total, h => by
+    unfold WSide.writeLoop
+    refine ⟨?_, by simp [FlushPost]⟩
+    cases h; constructor <;> simpa [Buf.avail]
+  | .w k :: rest, w, total, h => by
+    unfold WSide.writeLoop
+    have hw : WInv { w with script := rest } := by cases h; constructor <;> simpa
+    have hav : ({ w with script := rest } : WSide).buf.avail = w.buf.avail := rfl
+    by_cases h0 : min k w.buf.avail.length = 0
+    · rw [h0, WSide.accepted_n_zero]
+      refine ⟨?_, by simp [FlushPost]⟩
+      simpa using hw.afterSend_zero
+    · have hle : w.buf.pos + min k w.buf.avail.length ≤ w.buf.data.length := by
+        have := h.pos_le; simp [Buf.avail]; omega
+      by_cases hd : w.buf.pos + min k w.buf.avail.length = w.buf.data.length
+      · rw [WSide.accepted_n_done _ _ _ _ h0 (by simpa using hd) (by simpa using h.len_le)]
+        simp only
+        obtain ⟨hr, he⟩ := hw.afterSend_reset _ (by simpa using hd)
+        refine ⟨hr.afterFlushTo _ _, ?_⟩
+        intro _
+        exact WSide.afterFlushTo_flushed hr he rfl
+      · rw [WSide.accepted_n_more _ _ _ _ h0 (by simp only; omega) (by simpa using h.len_le)]
+        simp only
+        exact WInv.writeLoop snap rest _ (hw.afterSend_adv _ (by simpa using hle))
+
+
+theorem WInv.flushBegin {w} (h : WInv w) (snap : List Nat) :
+    WInv (w.flushBegin snap).1 ∧ FlushPost (w.flushBegin snap) := by
+  unfold WSide.flushBegin
+  split
+  · exact ⟨h, by simp [FlushPost]⟩
+  · split
+    · rename_i he
+      refine ⟨h.afterFlushTo _ _, ?_⟩
+      intro _
+      exact WSide.afterFlushTo_flushed h (by simpa using he) rfl
+    · exact WInv.writeLoop snap w.script 0 h
+
+/-- a future suspended in the inner `flush()` has emptied the buffer -/
+def FutOK (w : WSide) (fut : WFut) : Prop := ∀ t, fut = .flushing t → Flushed w
+
+/-- one poll of the flush future keeps the invariant; if the buffer was still empty whenever the
+future was suspended in the inner `flush()` (`FutOK`), then an `Ok` result (or being suspended in
+the inner `flush()`) means the buffer is empty and everything accepted was sent -/
+theorem WInv.flushResume {w} (h : WInv w) (snap : List Nat) (fut : WFut) :
+    WInv (w.flushResume snap fut).1 ∧ (FutOK w fut → FlushPost (w.flushResume snap fut)) := by
+  cases fut with
+  | idle => exact ⟨(h.flushBegin snap).1, fun _ => (h.flushBegin snap).2⟩
+  | writing t => exact ⟨(WInv.writeLoop snap w.script t h).1, fun _ => (WInv.writeLoop snap w.script t h).2⟩
+  | flushing t =>
+    refine ⟨h.flushTail snap t, ?_⟩
+    intro hf _
+    exact WSide.flushTail_flushed (hf t rfl) rfl
+
+/-- a poll that returns Pending is never in `idle`, a poll that returns a result always is -/
+theorem WSide.flushTail_fut (w : WSide) (snap : List Nat) (t : Nat) :
+    ((w.flushTail snap t).2.2 = none → (w.flushTail snap t).2.1 = .flushing t) ∧
+    ((w.flushTail snap t).2.2 ≠ none → (w.flushTail snap t).2.1 = .idle) := by
+  unfold WSide.flushTail
+  split <;> simp
+
+/-- a flush that ends `Ok` from a `flushing` future leaves the buffer as it was -/
+theorem WSide.flushResume_flushing_buf (w : WSide) (snap : List Nat) (t : Nat) :
+    (w.flushResume snap (.flushing t)).1.buf = w.buf ∧ (w.flushResume snap (.flushing t)).1.sent = w.sent ∧
+    (w.flushResume snap (.flushing t)).1.accepted = w.accepted := by
+  have := WSide.flushTail_same w snap t
+  exact ⟨this.1, this.2.1, this.2.2.1⟩
+
+theorem WInv.flushDrive : ∀ (k : Nat) {w : WSide} (fut : WFut), WInv w → FutOK w fut →
+    WInv (w.flushDrive fut k).1 ∧ (∀ m, (w.flushDrive fut k).2 = some (.ok m) → Flushed (w.flushDrive fut k).1)
+  | 0, w, fut, h, _ => by simpa [WSide.flushDrive] using h
+  | k + 1, w, fut, h, hf => by
+    unfold WSide.flushDrive
+    have hp := h.flushResume [driverTask] fut
+    rcases hq : w.flushResume [driverTask] fut with ⟨w', fut', o⟩
+    rw [hq] at hp
+    cases o with
+    | some res =>
+      refine ⟨hp.1, ?_⟩
+      intro m hm
+      simp only [Option.some.injEq] at hm
+      exact hp.2 hf (Or.inl ⟨m, by simp [hm]⟩)
+    | none =>
+      simp only
+      refine WInv.flushDrive k fut' hp.1 ?_
+      intro t ht
+      exact hp.2 hf (Or.inr ⟨t, ht⟩)
+
+theorem WInv.flush {w} (h : WInv w) (budget : Nat) :
+    WInv (w.flush budget).1 ∧ (∀ m, (w.flush budget).2 = some (.ok m) → Flushed (w.flush budget).1) :=
+  h.flushDrive budget .idle (by intro t ht; cases ht)
+
+theorem WInv.shutdownPoll {w} (h : WInv w) (snap : List Nat) : WInv (w.shutdownPoll snap).1 := by
+  unfold WSide.shutdownPoll
+  split <;> (cases h; constructor <;> simpa)
+
+theorem WSide.shutdownPoll_same (w : WSide) (snap : List Nat) :
+    (w.shutdownPoll snap).1.buf = w.buf ∧ (w.shutdownPoll snap).1.sent = w.sent ∧
+    (w.shutdownPoll snap).1.accepted = w.accepted ∧ (w.shutdownPoll snap).1.max = w.max ∧
+    (w.shutdownPoll snap).1.base = w.base := by
+  unfold WSide.shutdownPoll
+  split <;> simp
+
+
+/-! ### frame lemmas: configuration is constant, `taken` / `accepted` grow by exactly what is reported -/
+
+def resBytes : Res Bytes → Bytes
+  | .ok b => b
+  | _ => []
+
+theorem RSide.consume_frame (r : RSide) (amt : Nat) :
+    (r.consume amt).1.taken = r.taken ++ resBytes (r.consume amt).2 ∧
+    (r.consume amt).1.base = r.base ∧ (r.consume amt).1.max = r.max := by
+  by_cases hl : r.buf.lent = true
+  · rw [RSide.consume_lent amt hl]; simp [resBytes]
+  · have hl : r.buf.lent = false := by simpa using hl
+    by_cases h1 : r.buf.cap < r.buf.pos + amt
+    · rw [RSide.consume_panic hl h1]; simp [resBytes]
+    · by_cases h2 : r.buf.data.length < r.buf.pos + amt
+      · rw [RSide.consume_lost hl h1 h2]; simp [resBytes]
+      · rw [RSide.consume_ok hl h1 h2]; simp [resBytes]
+
+theorem RSide.read_frame (r : RSide) (n : Nat) :
+    (r.read n).1.taken = r.taken ++ resBytes (r.read n).2 ∧
+    (r.read n).1.base = r.base ∧ (r.read n).1.max = r.max := by
+  unfold RSide.read
+  split
+  · exact RSide.consume_frame r _
+  · simp [resBytes]
+  · simp [resBytes]
+
+theorem RSide.fillStart_frame (r : RSide) :
+    r.fillStart.1.taken = r.taken ∧ r.fillStart.1.base = r.base ∧ r.fillStart.1.max = r.max := by
+  unfold RSide.fillStart
+  split
+  · simp
+  · split
+    · simp
+    · simp only
+      split <;> simp
+
+theorem RSide.fillPoll_frame (r : RSide) (snap : List Nat) :
+    (r.fillPoll snap).1.taken = r.taken ∧ (r.fillPoll snap).1.base = r.base ∧ (r.fillPoll snap).1.max = r.max := by
+  unfold RSide.fillPoll
+  split <;> simp
+
+theorem RSide.fillDrive_frame : ∀ (k : Nat) (r : RSide),
+    (r.fillDrive k).1.taken = r.taken ∧ (r.fillDrive k).1.base = r.base ∧ (r.fillDrive k).1.max = r.max
+  | 0, r => by simp [RSide.fillDrive]
+  | k + 1, r => by
+    unfold RSide.fillDrive
+    have hp := RSide.fillPoll_frame r [driverTask]
+    rcases hq : r.fillPoll [driverTask] with ⟨r', o⟩
+    rw [hq] at hp
+    cases o with
+    | some res => simpa using hp
+    | none =>
+      have := RSide.fillDrive_frame k r'
+      simp only at hp ⊢
+      rw [this.1, this.2.1, this.2.2]; exact hp
+
+theorem RSide.fill_frame (r : RSide) (budget : Nat) :
+    (r.fill budget).1.taken = r.taken ∧ (r.fill budget).1.base = r.base ∧ (r.fill budget).1.max = r.max := by
+  unfold RSide.fill
+  cases budget with
+  | zero => simp
+  | succ k =>
+    simp only
+    have hs := RSide.fillStart_frame r
+    rcases hq : r.fillStart with ⟨r', o⟩
+    rw [hq] at hs
+    cases o with
+    | some res => simpa using hs
+    | none =>
+      simp only at hs ⊢
+      have hp := RSide.fillPoll_frame r' [driverTask]
+      rcases hq2 : r'.fillPoll [driverTask] with ⟨r'', o2⟩
+      rw [hq2] at hp
+      cases o2 with
+      | some res => simp only at hp ⊢; rw [hp.1, hp.2.1, hp.2.2]; exact hs
+      | none =>
+        have := RSide.fillDrive_frame k r''
+        simp only at hp ⊢
+        rw [this.1, this.2.1, this.2.2, hp.1, hp.2.1, hp.2.2]; exact hs
+
+theorem WSide.write_frame (w : WSide) (src : Bytes) : (w.write src).1.max = w.max ∧ (w.write src).1.base = w.base ∧
+    (w.write src).1.sent = w.sent := by
+  unfold WSide.write
+  split
+  · simp
+  · split
+    · simp
+    · simp only
+      split
+      · split
+        · simp
+        · split <;> simp
+      · simp
+
+theorem WSide.afterFlushTo_frame (w : WSide) (snap : List Nat) (t : Nat) :
+    (w.afterFlushTo snap t).1.accepted = w.accepted ∧ (w.afterFlushTo snap t).1.max = w.max ∧
+    (w.afterFlushTo snap t).1.base = w.base := by
+  unfold WSide.afterFlushTo
+  have := WSide.flushTail_same ({ w with buf := w.buf.compactTo w.base w.max }) snap t
+  exact ⟨this.2.2.1, this.2.2.2.1, this.2.2.2.2⟩
+
+theorem WSide.afterSend_frame (w : WSide) (n : Nat) :
+    (w.afterSend n).accepted = w.accepted ∧ (w.afterSend n).max = w.max ∧ (w.afterSend n).base = w.base := by
+  simp [WSide.afterSend]
+
+theorem WSide.accepted_n_frame (w : WSide) (snap : List Nat) (total n : Nat) :
+    (∀ x, (w.accepted_n snap total n).1 = some x → x.1.accepted = w.accepted ∧ x.1.max = w.max ∧ x.1.base = w.base) ∧
+    ((w.accepted_n snap total n).2.accepted = w.accepted ∧ (w.accepted_n snap total n).2.max = w.max ∧
+      (w.accepted_n snap total n).2.base = w.base) := by
+  unfold WSide.accepted_n
+  simp only
+  split
+  · simp
+  · split
+    · simp
+    · simp
+    · split
+      · refine ⟨?_, by simp⟩
+        intro x hx
+        simp only [Option.some.injEq] at hx
+        subst hx
+        refine ⟨?_, ?_, ?_⟩
+        · rw [(WSide.afterFlushTo_frame _ _ _).1]; simp
+        · rw [(WSide.afterFlushTo_frame _ _ _).2.1]; simp
+        · rw [(WSide.afterFlushTo_frame _ _ _).2.2]; simp
+      · simp
+
+theorem WSide.writeLoop_frame (snap : List Nat) : ∀ (script : List WItem) (w : WSide) (total : Nat),
+    (w.writeLoop snap total script).1.accepted = w.accepted ∧ (w.writeLoop snap total script).1.max = w.max ∧
+    (w.writeLoop snap total script).1.base = w.base
+  | [], w, total => by
+    unfold WSide.writeLoop
+    have := WSide.accepted_n_frame ({ w with script := [] }) snap total w.buf.avail.length
+    rcases hq : ({ w with script := [] } : WSide).accepted_n snap total w.buf.avail.length with ⟨o, w'⟩
+    rw [hq] at this
+    cases o with
+    | some r => simpa using this.1 r rfl
+    | none => simpa using this.2
+  | .p :: rest, w, total => by simp [WSide.writeLoop]
+  | .e :: rest, w, total => by simp [WSide.writeLoop]
+  | .w k :: rest, w, total => by
+    unfold WSide.writeLoop
+    have := WSide.accepted_n_frame ({ w with script := rest }) snap total (min k w.buf.avail.length)
+    rcases hq : ({ w with script := rest } : WSide).accepted_n snap total (min k w.buf.avail.length) with ⟨o, w'⟩
+    rw [hq] at this
+    cases o with
+    | some r => simpa using this.1 r rfl
+    | none =>
+      simp only
+      have ih := WSide.writeLoop_frame snap rest w' (total + min k w.buf.avail.length)
+      rw [ih.1, ih.2.1, ih.2.2]
+      simpa using this.2
+
+theorem WSide.flushResume_frame (w : WSide) (snap : List Nat) (fut : WFut) :
+    (w.flushResume snap fut).1.accepted = w.accepted ∧ (w.flushResume snap fut).1.max = w.max ∧
+    (w.flushResume snap fut).1.base = w.base := by
+  cases fut with
+  | idle =>
+    simp only [WSide.flushResume, WSide.flushBegin]
+    split
+    · simp
+    · split
+      · exact WSide.afterFlushTo_frame w snap 0
+      · exact WSide.writeLoop_frame snap w.script w 0
+  | writing t => exact WSide.writeLoop_frame snap w.script w t
+  | flushing t =>
+    have := WSide.flushTail_same w snap t
+    exact ⟨this.2.2.1, this.2.2.2.1, this.2.2.2.2⟩
+
+theorem WSide.flushDrive_frame : ∀ (k : Nat) (w : WSide) (fut : WFut),
+    (w.flushDrive fut k).1.accepted = w.accepted ∧ (w.flushDrive fut k).1.max = w.max ∧
+    (w.flushDrive fut k).1.base = w.base
+  | 0, w, fut => by simp [WSide.flushDrive]
+  | k + 1, w, fut => by
+    unfold WSide.flushDrive
+    have hp := WSide.flushResume_frame w [driverTask] fut
+    rcases hq : w.flushResume [driverTask] fut with ⟨w', fut', o⟩
+    rw [hq] at hp
+    cases o with
+    | some res => simpa using hp
+    | none =>
+      have := WSide.flushDrive_frame k w' fut'
+      simp only at hp ⊢
+      rw [this.1, this.2.1, this.2.2]; exact hp
+
+
+/-! ### the `SyncStream` test-case machine -/
+
+/-- invariant of a whole `SyncStream`; `C` = what the inner reader delivers before its end -/
+def Inv (C : Bytes) (s : State) : Prop := RInv C s.r ∧ WInv s.w
+
+theorem Inv.new (base max : Nat) (rs : List RItem) (ws : List WItem) :
+    Inv (content rs) (State.new base max rs ws) :=
+  ⟨RInv.new base max rs, WInv.new base max ws⟩
+
+theorem Inv.step {C s} (h : Inv C s) (op : Op) : Inv C (step s op).1 := by
+  obtain ⟨hr, hw⟩ := h
+  have hr' := hr.clearObs
+  have hw' := hw.clearObs
+  unfold SyncStream.step
+  simp only
+  split
+  · exact ⟨hr', hw'⟩
+  · cases op with
+    | read n => exact ⟨hr'.read n, hw'⟩
+    | rbu n => exact ⟨hr'.read n, hw'⟩
+    | fillbuf => exact ⟨hr', hw'⟩
+    | consume n => exact ⟨hr'.consume n, hw'⟩
+    | write bs => exact ⟨hr', hw'.write bs⟩
+    | flush => exact ⟨hr', hw'⟩
+    | fill k => exact ⟨hr'.fill k, hw'⟩
+    | wflush k => exact ⟨hr', (hw'.flush k).1⟩
+    | st => exact ⟨hr', hw'⟩
+    | parts => exact ⟨hr', hw'⟩
+
+/-- what a step adds to the ghost histories is exactly what its output reports -/
+theorem step_frame (s : State) (op : Op) :
+    (step s op).1.r.taken = s.r.taken ++ Out.taken op (step s op).2 ∧
+    (step s op).1.w.accepted = s.w.accepted ++ Out.acceptedOf op (step s op).2 ∧
+    (step s op).1.r.base = s.r.base ∧ (step s op).1.r.max = s.r.max ∧
+    (step s op).1.w.base = s.w.base ∧ (step s op).1.w.max = s.w.max := by
+  unfold SyncStream.step
+  simp only
+  split
+  · simp [RSide.clearObs, WSide.clearObs, Out.taken, Out.acceptedOf]
+  · cases op with
+    | read n =>
+      have := RSide.read_frame s.r.clearObs n
+      rcases hq : s.r.clearObs.read n with ⟨r', res⟩
+      rw [hq] at this
+      cases res <;> simp_all [RSide.clearObs, WSide.clearObs, Out.taken, Out.acceptedOf, Out.ofBytes, resBytes]
+    | rbu n =>
+      have := RSide.read_frame s.r.clearObs n
+      rcases hq : s.r.clearObs.read n with ⟨r', res⟩
+      rw [hq] at this
+      cases res <;> simp_all [RSide.clearObs, WSide.clearObs, Out.taken, Out.acceptedOf, Out.ofBytes, resBytes]
+    | fillbuf =>
+      cases s.r.clearObs.fillBuf <;> simp [RSide.clearObs, WSide.clearObs, Out.taken, Out.acceptedOf, Out.ofBytes]
+    | consume n =>
+      have := RSide.consume_frame s.r.clearObs n
+      rcases hq : s.r.clearObs.consume n with ⟨r', res⟩
+      rw [hq] at this
+      cases res <;> simp_all [RSide.clearObs, WSide.clearObs, Out.taken, Out.acceptedOf, Out.ofBytes, resBytes]
+    | write bs =>
+      have h1 := WSide.write_accepted s.w.clearObs bs
+      have h2 := WSide.write_frame s.w.clearObs bs
+      rcases hq : s.w.clearObs.write bs with ⟨w', res⟩
+      rw [hq] at h1 h2
+      cases res <;> simp_all [RSide.clearObs, WSide.clearObs, Out.taken, Out.acceptedOf, Out.ofNum]
+    | flush => simp [RSide.clearObs, WSide.clearObs, Out.taken, Out.acceptedOf]
+    | fill k =>
+      have := RSide.fill_frame s.r.clearObs k
+      rcases hq : s.r.clearObs.fill k with ⟨r', res⟩
+      rw [hq] at this
+      cases res with
+      | none => simp_all [RSide.clearObs, WSide.clearObs, Out.taken, Out.acceptedOf, Out.ofDrive]
+      | some x => cases x <;> simp_all [RSide.clearObs, WSide.clearObs, Out.taken, Out.acceptedOf, Out.ofDrive, Out.ofNum]
+    | wflush k =>
+      have := WSide.flushDrive_frame k s.w.clearObs .idle
+      unfold WSide.flush
+      rcases hq : s.w.clearObs.flushDrive .idle k with ⟨w', res⟩
+      rw [hq] at this
+      cases res with
+      | none => simp_all [RSide.clearObs, WSide.clearObs, Out.taken, Out.acceptedOf, Out.ofDrive]
+      | some x => cases x <;> simp_all [RSide.clearObs, WSide.clearObs, Out.taken, Out.acceptedOf, Out.ofDrive, Out.ofNum]
+    | st => simp [RSide.clearObs, WSide.clearObs, Out.taken, Out.acceptedOf]
+    | parts => simp [RSide.clearObs, WSide.clearObs, Out.taken, Out.acceptedOf]
+
+/-- bytes handed to the caller / accepted from the caller over a whole run, read off the outputs -/
+def takenOf : List Op → List Out → Bytes
+  | op :: ops, o :: os => Out.taken op o ++ takenOf ops os
+  | _, _ => []
+
+def acceptedOf : List Op → List Out → Bytes
+  | op :: ops, o :: os => Out.acceptedOf op o ++ acceptedOf ops os
+  | _, _ => []
+
+theorem Inv.run {C} : ∀ (ops : List Op) {s : State}, Inv C s → Inv C (run s ops).1
+  | [], s, h => by simpa [SyncStream.run] using h
+  | op :: ops, s, h => by
+    simp only [SyncStream.run]
+    exact Inv.run ops (h.step op)
+
+theorem run_frame : ∀ (ops : List Op) (s : State),
+    (run s ops).1.r.taken = s.r.taken ++ takenOf ops (run s ops).2 ∧
+    (run s ops).1.w.accepted = s.w.accepted ++ acceptedOf ops (run s ops).2 ∧
+    (run s ops).1.r.base = s.r.base ∧ (run s ops).1.r.max = s.r.max ∧
+    (run s ops).1.w.base = s.w.base ∧ (run s ops).1.w.max = s.w.max
+  | [], s => by simp [SyncStream.run, takenOf, acceptedOf]
+  | op :: ops, s => by
+    simp only [SyncStream.run, takenOf, acceptedOf]
+    have h1 := step_frame s op
+    have h2 := run_frame ops (step s op).1
+    rw [h2.1, h2.2.1, h2.2.2.1, h2.2.2.2.1, h2.2.2.2.2.1, h2.2.2.2.2.2, h1.1, h1.2.1]
+    simp only [List.append_assoc]
+    exact ⟨trivial, trivial, h1.2.2.1, h1.2.2.2.1, h1.2.2.2.2.1, h1.2.2.2.2.2⟩
+
+
+/-! ### a poll of the flush future that produces a result leaves no future behind -/
+
+theorem WSide.flushTail_idle (w : WSide) (snap : List Nat) (t : Nat) :
+    (w.flushTail snap t).2.2 ≠ none → (w.flushTail snap t).2.1 = .idle :=
+  (WSide.flushTail_fut w snap t).2
+
+theorem WSide.accepted_n_idle (w : WSide) (snap : List Nat) (total n : Nat) :
+    ∀ x, (w.accepted_n snap total n).1 = some x → x.2.2 ≠ none → x.2.1 = .idle := by
+  intro x hx
+  unfold WSide.accepted_n at hx
+  simp only at hx
+  split at hx
+  · simp only [Option.some.injEq] at hx; subst hx; simp
+  · split at hx
+    · simp only [Option.some.injEq] at hx; subst hx; simp
+    · simp only [Option.some.injEq] at hx; subst hx; simp
+    · split at hx
+      · simp only [Option.some.injEq] at hx; subst hx
+        unfold WSide.afterFlushTo
+        exact WSide.flushTail_idle _ _ _
+      · simp at hx
+
+theorem WSide.writeLoop_idle (snap : List Nat) : ∀ (script : List WItem) (w : WSide) (total : Nat),
+    (w.writeLoop snap total script).2.2 ≠ none → (w.writeLoop snap total script).2.1 = .idle
+  | [], w, total => by
+    unfold WSide.writeLoop
+    have := WSide.accepted_n_idle ({ w with script := [] }) snap total w.buf.avail.length
+    rcases hq : ({ w with script := [] } : WSide).accepted_n snap total w.buf.avail.length with ⟨o, w'⟩
+    rw [hq] at this
+    cases o with
+    | some r => exact this r rfl
+    | none => simp
+  | .p :: rest, w, total => by simp [WSide.writeLoop]
+  | .e :: rest, w, total => by simp [WSide.writeLoop]
+  | .w k :: rest, w, total => by
+    unfold WSide.writeLoop
+    have := WSide.accepted_n_idle ({ w with script := rest }) snap total (min k w.buf.avail.length)
+    rcases hq : ({ w with script := rest } : WSide).accepted_n snap total (min k w.buf.avail.length) with ⟨o, w'⟩
+    rw [hq] at this
+    cases o with
+    | some r => exact this r rfl
+    | none => exact WSide.writeLoop_idle snap rest w' _
+
+theorem WSide.flushResume_idle (w : WSide) (snap : List Nat) (fut : WFut) :
+    (w.flushResume snap fut).2.2 ≠ none → (w.flushResume snap fut).2.1 = .idle := by
+  cases fut with
+  | idle =>
+    simp only [WSide.flushResume, WSide.flushBegin]
+    split
+    · simp
+    · split
+      · unfold WSide.afterFlushTo; exact WSide.flushTail_idle _ _ _
+      · exact WSide.writeLoop_idle snap w.script w 0
+  | writing t => exact WSide.writeLoop_idle snap w.script w t
+  | flushing t => exact WSide.flushTail_idle w snap t
 
 end Compio.SyncStream
